@@ -311,7 +311,8 @@ func cond(permit bool, body *ir.Expr) *ir.Policy {
 	return p
 }
 
-var idPool = []string{"p0", "p1", "p2", "p3", "p4", "p5", "p6", "p7", "p8", "p9", "", "é", "policy10", "policy2", "a b", "\"q\""}
+// ids that an order other than the plain byte order would tie or swap: leading zeros, digit runs, case, a prefix of another
+var idPool = []string{"p0", "p1", "p2", "p3", "p4", "p5", "p6", "p7", "p8", "p9", "", "é", "policy10", "policy2", "a b", "\"q\"", "p01", "p001", "P1", "p1 ", "p10", "rule7", "rule007"}
 
 // engineeredWorld: >= 5 entities (+ generated ones), context with ok=true and no "missing".
 func engineeredWorld(t *rapid.T) gen.World {
@@ -892,6 +893,19 @@ func TestKnown(t *testing.T) {
 			t.Errorf("C14/%s (same-kind members %d): %s", sub, i, msg)
 		}
 		ev.R.Case(ir.Hash(c), true, "family:authorize", "in-set-same-kind-members")
+	}
+	// a set whose ids tie under any "natural" / case-folding / trimmed comparison, encoded again and again
+	{
+		var ps []Named
+		for i, id := range []string{"p1", "p01", "p001", "P1", "p1 ", "p10", "p2", "rule7", "rule007", "rule07"} {
+			ps = append(ps, Named{ID: id, P: cond(i%2 == 0, ir.Bin(ir.OpEq, ir.Access(ctxVar, "ok"), lit(ir.Long(int64(i)))))})
+		}
+		c := &Case{Family: "policy-codec", R: 200, Policies: ps}
+		if sub, msg := checkPolicyCodecs(c, true); sub != "" {
+			ev.R.Violation(sub, c, msg)
+			t.Errorf("C14/%s (tie-prone ids): %s", sub, msg)
+		}
+		ev.R.Case(ir.Hash(c), true, "family:policy-codec", "tie-prone-ids")
 	}
 	try("json-decode-annotation-order", reproJSONOrder(true, false), func(c *Case) (string, string) { return checkPolicyCodecs(c, true) })
 	try("json-decode-record-key-order", reproJSONOrder(false, true), func(c *Case) (string, string) { return checkPolicyCodecs(c, true) })
